@@ -185,17 +185,41 @@ def _s(b):
     return struct.pack("<I", len(b) // 4) + b
 
 
+def _ver(version):
+    """version number as reader.rs computes it from the four bytes in little-endian file order ('*', c0, c1, c2)"""
+    c0, c1, c2 = version[1], version[2], version[3]
+    if c2 >= 65:
+        return 100 * (c2 - 65) + 10 * (c1 - 48) + (c0 - 48)
+    return 10 * (c2 - 48) + (c0 - 48)
+
+
 def synth_gcno(funcs, version=b"*204", checksum=0x1234):
-    """funcs: list of dict(ident, name, file, start, nblocks, arcs=[(src, [(dst, flags)..])..], lines={block: [line..]}, lsum, csum)"""
-    ver = 10 * (version[3] - 48) + (version[1] - 48)      # "*204" -> 42, "*804" -> 48 (little endian file order)
+    """funcs: list of dict(ident, name, file, start, nblocks, arcs=[(src, [(dst, flags)..])..], lines={block: [line..]}, lsum, csum,
+    optional no_blocks_record=True).  version < 8.0: LLVM/old GCC layout; >= 8.0 (b"*008", b"*009"...): GCC 8/9 layout
+    (unexecuted-blocks flag, artificial/column/end-line fields, BLOCKS record = one count word; >= 9.0: cwd string, end column)."""
+    ver = _ver(version)
     out = b"oncg" + version + struct.pack("<I", checksum)
+    if ver >= 90:
+        out += _s(b"/cwd")
+    if ver >= 80:
+        out += struct.pack("<I", 0)
     for f in funcs:
         body = struct.pack("<II", f["ident"], f.get("lsum", 7))
         if ver >= 47:
             body += struct.pack("<I", f.get("csum", 9))
-        body += _s(f["name"]) + _s(f["file"]) + struct.pack("<I", f["start"])
+        body += _s(f["name"])
+        if ver >= 80:
+            body += struct.pack("<I", 0) + _s(f["file"]) + struct.pack("<III", f["start"], 1, f.get("end", f["start"] + 1000))
+            if ver >= 90:
+                body += struct.pack("<I", 1)
+        else:
+            body += _s(f["file"]) + struct.pack("<I", f["start"])
         out += struct.pack("<II", 0x01000000, len(body) // 4) + body
-        out += struct.pack("<II", 0x01410000, f["nblocks"]) + b"\0\0\0\0" * f["nblocks"]
+        if not f.get("no_blocks_record"):
+            if ver >= 80:
+                out += struct.pack("<III", 0x01410000, 1, f["nblocks"])
+            else:
+                out += struct.pack("<II", 0x01410000, f["nblocks"]) + b"\0\0\0\0" * f["nblocks"]
         for src, dsts in f["arcs"]:
             out += struct.pack("<III", 0x01430000, 1 + 2 * len(dsts), src)
             for dst, fl in dsts:
@@ -212,7 +236,7 @@ def synth_gcno(funcs, version=b"*204", checksum=0x1234):
 
 def synth_gcda(funcs, counters, version=b"*204", checksum=0x1234):
     """counters: {ident: [u64 per non-tree arc in arc order]}"""
-    ver = 10 * (version[3] - 48) + (version[1] - 48)
+    ver = _ver(version)
     out = b"adcg" + version + struct.pack("<I", checksum)
     for f in funcs:
         if f["ident"] not in counters:
@@ -356,3 +380,38 @@ def with_foreign_function(gcda, known):
             chunk = chunk[:8] + struct.pack("<I" if le else ">I", absent_ident(known)) + chunk[12:]
             return gcda[:4 * end] + chunk + gcda[4 * end:]
     return None
+
+
+def degenerate_cases():
+    """gcno files whose functions declare 0, 1 or 2 basic blocks (arcs only where legal), in formats 4.2 / 4.7 / 4.8 / 8.0,
+    alone, next to a normal function, with and without gcda: a result or an error, never a panic"""
+    out = []
+    for version in (b"*204", b"*704", b"*804", b"*008"):
+        for nb in (0, 1, 2):
+            variants = [[]]
+            if nb == 1:
+                variants.append([(0, [(0, 0)])])                      # a self arc
+                variants.append([(0, [(0, 1)])])
+            if nb == 2:
+                variants = [[(0, [(1, 0)])], [(0, [(1, 1)])], [(0, [(1, 0)]), (1, [(0, 0)])], []]
+            for arcs in variants:
+                for with_normal in (False, True):
+                    for no_rec in ((False, True) if nb == 0 else (False,)):
+                        f = dict(ident=1, name=b"tiny", file=b"a.c", start=1, nblocks=nb, arcs=arcs,
+                                 lines={b: [b + 1] for b in range(nb)}, no_blocks_record=no_rec)
+                        funcs = [f]
+                        if with_normal:
+                            funcs = [dict(ident=2, name=b"norm", file=b"a.c", start=10, nblocks=3, arcs=[(0, [(1, 0)]), (1, [(2, 1)])], lines={0: [10], 1: [11]}), f]
+                        gcno = synth_gcno(funcs, version=version)
+                        nreal = {g["ident"]: sum(1 for _s_, ds in g["arcs"] for _d, fl in ds if fl & 1 == 0) for g in funcs}
+                        gcda = synth_gcda(funcs, {i: [3] * n for i, n in nreal.items()}, version=version)
+                        for ds in ([], [gcda], [gcda, gcda]):
+                            c = case(gcno, ds, True)
+                            c["mut"] = ["degenerate", "gcno", "degen", [version.decode(), nb, len(arcs), with_normal, no_rec, len(ds)]]
+                            out.append(c)
+    return out
+
+
+def counter_records(gcda):
+    """[(index of the length word, length)] of the COUNTER_ARCS records of a well-formed gcda"""
+    return [(i + 1, ln) for tag, i, ln in records(gcda) if tag == 0x01a10000]
